@@ -401,7 +401,7 @@ func VerificationTicketReceiptHandler(ctx context.Context, entity datastore.Enti
 	}
 
 	// check if the ticket has already verified
-	if mr.IsTicketCollected(&bvt.VerificationTicket) {
+	if mr.IsTicketCollected(bvt) {
 		logging.Logger.Debug("handle vt. msg -- ticket already collected",
 			zap.Int64("round", rn), zap.String("block", bvt.BlockID))
 		return nil, nil
